@@ -4,6 +4,7 @@ import Zc.Model.QueryGen
 `c13svc now qu <cache: n rec…> <hist: n (question at <n rec…>)…> <types: n hex…>`   generate_service_query
 `c13req now qu <cache> <hist> nameHex serverHex`                                     _generate_request_query
 `c13hear canAnswer now <hist> question <known: n rec…>`                                       responder records a question
+`c13hearm now <hist> <packets>`                                                      responder hears a whole (multi-packet) query
 `c13grp <n> (size id)…`                                                              bucket grouping
 `c13loop forced now timeout <draws: n d…>`                                           request loop on its own wake-ups
 `c13iter first delay next last forced now draw`                                      one loop iteration
@@ -54,7 +55,7 @@ def c13svc : Tok String := do
   let cache ← Tok.list Rec.parse
   let hist ← Tok.list parseHEntry
   let types ← Tok.list Tok.str
-  pure (resStr now (serviceQuery asciiLower cache now qu types hist))
+  pure (resStr now (serviceQuestions asciiLower cache now qu types hist))
 
 def c13req : Tok String := do
   let now ← Tok.int; let qu ← Tok.bool
@@ -70,6 +71,19 @@ def c13hear : Tok String := do
   let q ← Question.parse
   let known ← Tok.list Rec.parse
   pure (histStr (responderHears asciiLower can hist q now known))
+
+def parseHeardPacket : Tok HeardPacket := do
+  let probe ← Tok.bool
+  let questions ← Tok.list (do let q ← Question.parse; let can ← Tok.bool; pure (q, can))
+  let records ← Tok.list Rec.parse
+  pure { probe, questions, records }
+
+/-- `c13hearm now <hist> <packets: n (probe <questions: n (question canAnswer)…> <records: n rec…>)…>` -/
+def c13hearm : Tok String := do
+  let now ← Tok.int
+  let hist ← Tok.list parseHEntry
+  let pkts ← Tok.list parseHeardPacket
+  pure (histStr (hearQuery asciiLower hist pkts now))
 
 def c13grp : Tok String := do
   let items ← Tok.list (do let s ← Tok.nat; let i ← Tok.nat; pure (s, i))
@@ -111,6 +125,7 @@ def dispatch (cmd : String) (rest : List String) : Option String :=
   | "c13svc" => some (run c13svc rest)
   | "c13req" => some (run c13req rest)
   | "c13hear" => some (run c13hear rest)
+  | "c13hearm" => some (run c13hearm rest)
   | "c13grp" => some (run c13grp rest)
   | "c13expire" => some (run c13expire rest)
   | "c13loop" => some (run c13loop rest)
